@@ -343,6 +343,16 @@ def run(c):
                   "usability ('executes without error') is decided by DuckDB on the executed single-field queries: not a theorem",
                   "harness: splitting a reference at '__' and '.' the way validate_query does"]
     c.assumptions += ["references contain at most one dot (a second dot makes validate_query raise ValueError from tuple unpacking: outside the modelled fragment)"]
+    try:
+        import os
+        from translator import gen_validate
+        lib.write_if_changed(os.path.join(lib.COQ, "Gen", "Validate_gen.v"), gen_validate.generate(lib.REPO))
+        c.obligation("translator: error table of validate_query (154 scripted scenarios) regenerated", True, "translator")
+        same = gen_validate.table(lib.REPO) == gen_validate.table(lib.REPO, real=True)
+        c.obligation("translator validation: interpreted validate_query == the real function under CPython on the same scenarios", same, "translator")
+    except Exception as e:
+        c.obligation("translator: error table of validate_query regenerated", False, "translator", repr(e)[-900:])
+    c.trusted.append("translator/pyinterp.py + gen_validate.py (fail-closed definitional interpreter; the error-text classifier is trusted; validated against CPython each run)")
     c.build_props()
     na = 420 if c.tier == "quick" else 6000
     nb = 90 if c.tier == "quick" else 1500
